@@ -60,6 +60,10 @@ def w_cov(case):
     top = np.array(case['top'], dtype=float)
     cov = np.array(case['cov'], dtype=float).reshape(n_ids, n_cov)
     obs = np.array(case['obs'], dtype=float).reshape(n_ids, d)
+
+    def top_arg():
+        # zero == 'int': whole-number parameters handed over as an integer array
+        return top.astype(int) if case['zero'] == 'int' else top.copy()
     c = np.array(case['dlogp'], dtype=float).reshape(n_ids, d)
     nt = rp.n_top(spec, n_ids)
     if m.n_parameters() != nt or len(top) != nt:
@@ -97,14 +101,14 @@ def w_cov(case):
         exp_psi[i] = under.compute_individual_parameters(
             th[i].flatten(), obs[i:i + 1])[0]
         ntr += 2
-    got_ll = m.compute_log_likelihood(top.copy(), obs.copy(), cov.copy())
+    got_ll = m.compute_log_likelihood(top_arg(), obs.copy(), cov.copy())
     ntr += 1
     if not tol.close(got_ll, exp_ll):
         viol.append({'sub': 'll', 'message': 'log-likelihood differs from the '
                      'underlying model evaluated per individual at vartheta_i (%s)'
                      % lab, 'expected': exp_ll, 'observed': got_ll,
                      'behaviour': 'll'})
-    got_psi = m.compute_individual_parameters(top.copy(), obs.copy(), cov.copy())
+    got_psi = m.compute_individual_parameters(top_arg(), obs.copy(), cov.copy())
     ntr += 1
     if not tol.allclose(got_psi, exp_psi):
         viol.append({'sub': 'psi', 'message': 'individual-parameter transform '
@@ -130,7 +134,7 @@ def w_cov(case):
     if np.isfinite(exp_ll):
         e_score, e_dobs, e_dtop = c05.expected_separate(spec, top, obs, c, cov)
         s, dpsi, dth = m.compute_sensitivities(
-            top.copy(), obs.copy(), cov.copy(), dlogp_dpsi=c.copy())
+            top_arg(), obs.copy(), cov.copy(), dlogp_dpsi=c.copy())
         ntr += 1
         if not tol.close(s, e_score):
             viol.append({'sub': 'sens_score', 'message': 'score of '
@@ -143,7 +147,7 @@ def w_cov(case):
             viol[-1]['behaviour'] = 'dtheta'
         e_red = c05.expected_reduced(spec, top, obs, c, cov)
         s, ds = m.compute_sensitivities(
-            top.copy(), obs.copy(), cov.copy(), dlogp_dpsi=c.copy(), reduce=True)
+            top_arg(), obs.copy(), cov.copy(), dlogp_dpsi=c.copy(), reduce=True)
         ntr += 1
         if c05._cmp(viol, 'reduce', 'reduce-form sensitivities wrong (%s)' % lab,
                     e_red, ds) is False:
@@ -162,7 +166,17 @@ def w_linear(case):
     beta = np.array(case['beta'], dtype=float)
     pop = np.array(case['pop'], dtype=float).reshape(ppd, d)
     cov = np.array(case['cov'], dtype=float).reshape(n_ids, n_cov)
-    got = cm.compute_population_parameters(beta.copy(), pop.copy(), cov.copy())
+    ints = case.get('ints', '')
+    if 'b' in ints:
+        beta = np.sign(beta) * np.maximum(1, np.round(np.abs(beta)))
+    if 'p' in ints:
+        pop = np.maximum(1, np.round(pop))
+    if 'c' in ints:
+        cov = np.maximum(1, np.round(cov * 2))
+    got = cm.compute_population_parameters(
+        beta.astype(int) if 'b' in ints else beta.copy(),
+        pop.astype(int) if 'p' in ints else pop.copy(),
+        cov.astype(int) if 'c' in ints else cov.copy())
     exp = np.broadcast_to(pop[np.newaxis], (n_ids, ppd, d)).copy()
     b = beta.reshape(len(pairs), n_cov)
     for j, (p, k) in enumerate(pairs):
@@ -208,6 +222,11 @@ def make_case(inner, n_cov, sel, n_ids, seed, zero='none', history=None,
         cov[:, 0] = 0
     elif zero == 'beta':
         top = list(top[:n_in]) + [0.0] * (len(top) - n_in)
+    elif zero == 'int':
+        # whole numbers; the underlying parameters are kept large enough for every
+        # individual's shifted scale to stay positive (|beta| = 1, covariates < 1.5)
+        top = [float(max(1, round(abs(v))) + 3) if i < n_in
+               else float(np.sign(v) * 1) for i, v in enumerate(top)]
     obs = popvals.obs_values(spec, top, n_ids, cov, seed)
     c = vals.reals('c07.c', n_ids * d, -1.5, 1.5, seed)
     if history is None:
@@ -233,8 +252,8 @@ def build(tier, seed):
                     for n_ids in range(1, max_ids + 1):
                         zs = ['none']
                         if form == 'sorted':
-                            zs = ['none', 'cov', 'beta', 'col'] if n_ids == 2 \
-                                else ['none']
+                            zs = ['none', 'cov', 'beta', 'col', 'int'] \
+                                if n_ids == 2 else ['none']
                         for z in zs:
                             cases.append(make_case(inner, n_cov, sel, n_ids, seed, z))
     # histories: sel1 then sel2 (final = sel2), then dimension / covariate names
@@ -264,12 +283,16 @@ def build(tier, seed):
                     continue
                 for n_ids in (1, 3):
                     npairs = len(set(map(tuple, sel)))
-                    lin.append({
-                        'n_cov': n_cov, 'sel': sel, 'ppd': ppd, 'd': d,
-                        'n_ids': n_ids,
-                        'beta': vals.reals('c07.lb', npairs * n_cov, -1, 1, seed),
-                        'pop': vals.reals('c07.lp', ppd * d, 0.5, 3, seed),
-                        'cov': vals.reals('c07.lc', n_ids * n_cov, 0.1, 2, seed)})
+                    # which of (beta, pop, cov) are whole numbers in integer arrays
+                    for ints in ('', 'p', 'b', 'c', 'pb', 'pc', 'bc', 'pbc'):
+                        lin.append({
+                            'n_cov': n_cov, 'sel': sel, 'ppd': ppd, 'd': d,
+                            'n_ids': n_ids, 'ints': ints,
+                            'beta': vals.reals('c07.lb', npairs * n_cov, -1, 1,
+                                               seed),
+                            'pop': vals.reals('c07.lp', ppd * d, 0.5, 3, seed),
+                            'cov': vals.reals('c07.lc', n_ids * n_cov, 0.1, 2,
+                                              seed)})
     return {
         'parts': [
             Part('selections', cases, w_cov,
@@ -277,7 +300,8 @@ def build(tier, seed):
             Part('histories', hist, w_cov,
                  'sequences of set_population_parameters / set_dim_names / '
                  'set_covariate_names'),
-            Part('linear', lin, w_linear, 'LinearCovariateModel alone'),
+            Part('linear', lin, w_linear,
+                 'LinearCovariateModel alone, float and integer-typed arguments'),
         ],
         'bounds': {'underlying': inners, 'n_dim': [1, 2], 'n_cov': [1, 2],
                    'n_ids_max': max_ids},
